@@ -250,6 +250,31 @@ def main(tier, seed, replay=None):
                 else:
                     raw.append({"what": "a data graph with a cyclic rdf:rest chain made validate() fail (%s) instead of reporting" % ch, "case": nm, "data": cyc_data, "options": opts})
 
+    # unusual but legal literal values in the DATA graph (decimal / double NaN, infinities, huge and ill-typed numbers,
+    # naive and zoned times) under every ordering component: comparing them is never a cause of failure
+    odd_data = CS.PFX + """ex:a a ex:Person ; ex:p "NaN"^^xsd:decimal , 5 , "NaN"^^xsd:double , "INF"^^xsd:float , "-INF"^^xsd:double , "1e400"^^xsd:double ,
+      "abc"^^xsd:integer , "2020-01-01T00:00:00"^^xsd:dateTime , "2020-01-01T00:00:00Z"^^xsd:dateTime , "99999999999999999999999999999999999999.5"^^xsd:decimal ;
+      ex:q "NaN"^^xsd:decimal , 7 , "sNaN"^^xsd:decimal , "12:00:00"^^xsd:time , "12:00:00+01:00"^^xsd:time , "x"@en ."""
+    for nm, body in (("minInclusive", "sh:property [ sh:path ex:p ; sh:minInclusive 3 ]"), ("maxExclusive", "sh:property [ sh:path ex:p ; sh:maxExclusive 3.5 ]"),
+                     ("minExclusive double", "sh:property [ sh:path ex:q ; sh:minExclusive 1e0 ]"), ("maxInclusive dateTime", 'sh:property [ sh:path ex:p ; sh:maxInclusive "2021-01-01T00:00:00Z"^^xsd:dateTime ]'),
+                     ("lessThan", "sh:property [ sh:path ex:p ; sh:lessThan ex:q ]"), ("lessThanOrEquals", "sh:property [ sh:path ex:q ; sh:lessThanOrEquals ex:p ]"),
+                     ("equals/disjoint", "sh:property [ sh:path ex:p ; sh:equals ex:q ; sh:disjoint ex:q ]"), ("hasValue/in", 'sh:property [ sh:path ex:p ; sh:hasValue "NaN"^^xsd:decimal ; sh:in ( 5 "NaN"^^xsd:double ) ]'),
+                     ("datatype/length", "sh:property [ sh:path ex:p ; sh:datatype xsd:decimal ; sh:minLength 2 ; sh:maxLength 4 ; sh:pattern \"N\" ]"),
+                     ("uniqueLang", "sh:property [ sh:path ex:q ; sh:uniqueLang true ; sh:languageIn ( \"de\" ) ]")):
+        try:
+            sgx = rdflib.Graph().parse(data=CS.PFX + "ex:CS a sh:NodeShape ; sh:targetClass ex:Person ; " + body + " .", format="turtle")
+            dgx = rdflib.Graph().parse(data=odd_data, format="turtle")
+        except Exception as ex_:
+            raw.append({"what": "harness: odd-literal data case did not parse: %s" % ex_, "case": nm})
+            continue
+        for opts in ({}, {"abort_on_first": True}, {"sparql_mode": True} if nm.startswith(("min", "max")) else {"advanced": True}):
+            ch, e = classify(lambda: pyshacl.validate(dgx, shacl_graph=sgx, **opts))
+            channels["odd-literals:" + ch.split(":")[0]] = channels.get("odd-literals:" + ch.split(":")[0], 0) + 1
+            if ch.startswith("raw"):
+                note_raw("unusual literal values in the data graph, shape " + nm, ch, e, CS.PFX + "ex:CS a sh:NodeShape ; sh:targetClass ex:Person ; " + body + " .", opts, odd_data)
+            elif not ch.startswith("ok:"):
+                raw.append({"what": "a data graph with unusual literal values made validate() fail (%s: %s) instead of reporting" % (ch, str(e)[:200]), "case": nm, "data": odd_data, "options": opts})
+
     # ---- CLI: the same causes through `python -m pyshacl`
     d = tempfile.mkdtemp(prefix="c16_", dir="/var/tmp")
     cli_bad, cli_runs = [], 0
